@@ -221,6 +221,7 @@ type update struct {
 //     update of the same parent while it waits;
 //   - an update requested on top of a root that is only pending, then the rollback of whatever
 //     came back and the commit of the pending root.
+//
 // After every step: reads at every committed root and (half of the time) at every other root.
 func genReexec(rng *hlib.Rng, kind string, nops int) (*runner, *view) {
 	h := &History{Kind: kind, Prefix: rng.Chance(1, 3), Queue: rng.Chance(1, 2)}
